@@ -677,10 +677,12 @@ impl<'d> Deserialize<'d> for VerifyingKey {
                         .ok_or_else(|| serde::de::Error::invalid_length(i, &"expected 32 bytes"))?;
                 }
 
-                let remaining = (0..)
-                    .map(|_| seq.next_element::<u8>())
-                    .take_while(|el| matches!(el, Ok(Some(_))))
-                    .count();
+                // Count every trailing element, whatever its type, and propagate errors: an element
+                // that fails to parse must not be mistaken for the end of the sequence.
+                let mut remaining = 0;
+                while seq.next_element::<serde::de::IgnoredAny>()?.is_some() {
+                    remaining += 1;
+                }
 
                 if remaining > 0 {
                     return Err(serde::de::Error::invalid_length(
